@@ -6,7 +6,7 @@ from props import pyref
 class P(StreamProperty):
     pid = 'C05'
     module = 'OpenFecVerif.Props.C05'
-    theorems = ['C05_indep_global', 'C05_invalid_seed_keeps_state', 'C05_staircase', 'C05_rejects_large_N1', 'C05_goodRand', 'C05_matrix_wf', 'C05_configured_session']
+    theorems = ['C05_indep_global', 'C05_invalid_seed_keeps_state', 'C05_staircase', 'C05_rejects_large_N1', 'C05_goodRand', 'C05_matrix_wf', 'C05_configured_session', 'C05_column_mapping']
     rule = ('every case creates an encoder and a decoder session with the same (k, r, N1, seed) after a random prefix of other sessions '
             '(other parameters, other codecs, and near twins that differ from the target in exactly one of N1, seed, k, r) that leave the global PRNG and any other process-wide state in arbitrary states, and dumps both parity-check matrices; they are compared '
             'with the Lean transcription of RFC 5170 (correspondence) and with an independent Python transcription (oracle); grid k in {1..12,31,32,33,100,1000}, '
